@@ -5,11 +5,13 @@ among components with a common start time ends with a circular-coupling error; a
 carries fixed delays summing to at least the sum of the largest steps of its components completes; no run ends with
 a hang, unbounded recursion, a data/time error or any other exception."""
 from . import sched_common as sc
-from .sched_common import (COQ_IMPORTS, COQ_CHECK, COQ_MODEL_OBS, TRUSTED, coq_case, coq_obs, run_impl,  # noqa: F401
-                           shrink_candidates, distribution)
+from .sched_common import COQ_IMPORTS, TRUSTED, run_impl, distribution  # noqa: F401
+from ..coqgen import B, L, N, P
 from . import c01
 
 ID = "C04"
+COQ_CHECK = "c04_check"
+COQ_MODEL_OBS = None
 RULE = (
     "rings of 2-5 time components (with chords, tails, pass-through adapters and buffering adapters at the source "
     "end) whose fixed delays are split over 1-3 adapters per link and sum to just below / exactly / above the sum of "
@@ -31,10 +33,63 @@ CORPUS = [c01.CORPUS[1], c01.CORPUS[2],
                      {"kind": "T", "start": 0, "steps": [sc.DAY], "initpull": False, "nout": 1,
                       "inputs": [{"src": [1, 0], "chain": [["fixed", 10 * sc.DAY]]}]}],
            "end": 5 * sc.DAY},
+          # cycle in the initial exchange plus a component that does connect (the stall must still be noticed)
+          {"comps": [{"kind": "T", "start": 0, "steps": [2], "initpull": True, "pap": True, "nout": 1, "inputs": [{"src": [1, 0], "chain": []}]},
+                     {"kind": "T", "start": 0, "steps": [3], "initpull": True, "pap": True, "nout": 1, "inputs": [{"src": [0, 0], "chain": []}, {"src": [2, 0], "chain": []}]},
+                     {"kind": "T", "start": 0, "steps": [1], "initpull": False, "nout": 1, "inputs": []}],
+           "end": 10},
           # undelayed ring of two
           {"comps": [{"kind": "T", "start": 0, "steps": [2], "initpull": False, "nout": 1, "inputs": [{"src": [1, 0], "chain": [["pass"]]}]},
                      {"kind": "T", "start": 0, "steps": [3], "initpull": False, "nout": 1, "inputs": [{"src": [0, 0], "chain": []}]}],
            "end": 10}]
+
+
+def coq_case(case, obs):
+    paps = L(B(bool(c.get("pap"))) for c in case["comps"])
+    return P(sc.coq_case(case, obs), paps)
+
+
+def coq_obs(case, obs):
+    if obs.get("phase") == "connect" and obs.get("outcome") == "CircularCoupling" and obs.get("stuck") is not None:
+        return P(L(N(k) for k in obs["stuck"]), "(OOk, [], [])")
+    return P("[]", sc.coq_obs(case, obs))
+
+
+def shrink_candidates(case):
+    for c in sc.shrink_candidates(case):
+        yield c
+
+
+def connect_ring(rng):
+    """rings (plus tails / unrelated components that do connect) whose members provide their initial data only
+    after their initial pulls succeeded: a cycle in the initial exchange, to be reported by connect()"""
+    n = rng.choice([2, 2, 3, 4])
+    unit = rng.choice(sc.UNITS)
+    comps = [{"kind": "T", "start": 0, "steps": [unit * rng.choice([1, 2, 3])], "initpull": True, "nout": 1,
+              "pap": True, "inputs": [{"src": [(k - 1) % n, 0], "chain": [["pass"]] if rng.random() < 0.3 else []}]}
+             for k in range(n)]
+    if rng.random() < 0.6:
+        # one member does not wait: the cycle is broken and connect succeeds (fixed delay makes the run work too)
+        k = rng.randrange(n)
+        comps[k]["pap"] = False
+        for c in comps:
+            c["inputs"][0]["chain"] = c["inputs"][0]["chain"] + [["fixed", max(max(x["steps"]) for x in comps)]]
+    # components that do connect: a source feeding the ring, a sink fed by it, an unrelated pair
+    extra = rng.choice(["none", "source", "sink", "unrelated", "source+sink"])
+    if "source" in extra:
+        comps.append({"kind": "T", "start": 0, "steps": [unit], "initpull": False, "nout": 1, "inputs": []})
+        comps[rng.randrange(n)]["inputs"].append({"src": [len(comps) - 1, 0], "chain": []})
+    if "sink" in extra:
+        comps.append({"kind": "T", "start": 0, "steps": [unit * 2], "initpull": rng.random() < 0.5, "nout": 0,
+                      "inputs": [{"src": [rng.randrange(n), 0], "chain": []}]})
+    if extra == "unrelated":
+        comps.append({"kind": "T", "start": 0, "steps": [unit], "initpull": False, "nout": 1, "inputs": []})
+        comps.append({"kind": "T", "start": 0, "steps": [unit], "initpull": True, "nout": 0,
+                      "inputs": [{"src": [len(comps) - 1, 0], "chain": []}]})
+    order = list(range(len(comps)))
+    rng.shuffle(order)
+    comps = sc.permute(comps, order)
+    return {"comps": comps, "end": unit * rng.choice([2, 4, 6])}
 
 
 def undelayed_ring(rng):
@@ -56,7 +111,7 @@ def generate(rng, tier):
         elif m < 7:
             cases.append(sc.gen_ring(rng, sufficient=False))
         elif m < 8:
-            cases.append(undelayed_ring(rng))
+            cases.append(undelayed_ring(rng) if i % 20 < 10 else connect_ring(rng))
         else:
             cases.append(sc.gen_dag(rng, cyclic=True, late_start=False))
     return cases
@@ -121,11 +176,29 @@ def classify(case):
     return "other"
 
 
+def _connect_expect(case):
+    """components that cannot complete the initial exchange (least fixed point of 'publishes')"""
+    comps = case["comps"]
+    n = len(comps)
+    pub = [False] * n
+    for _ in range(n + 1):
+        pub = [not (c.get("pap") and c.get("initpull")) or all(pub[i["src"][0]] for i in c["inputs"]) for c in comps]
+    return [k for k, c in enumerate(comps)
+            if not (pub[k] and (not c.get("initpull") or all(pub[i["src"][0]] for i in c["inputs"])))]
+
+
 def monitor(case, obs):
+    exp_stuck = _connect_expect(case)
     if obs["phase"] != "run":
         if obs["outcome"] == "CircularCoupling":
+            if not exp_stuck:
+                return "connect() reported a circular coupling although the initial exchange is acyclic"
+            if obs.get("stuck") is not None and sorted(obs["stuck"]) != exp_stuck:
+                return f"connect() listed components {obs['stuck']} as unconnected, the stuck ones are {exp_stuck}"
             return None
         return f"connect phase failed with {obs['outcome']}"
+    if exp_stuck:
+        return f"connect() succeeded although components {exp_stuck} depend on each other's initial data"
     if obs["outcome"] not in ("ok", "CircularCoupling"):
         return f"run ended with {obs['outcome']} (only success or a circular-coupling error are allowed)"
     k = classify(case)
